@@ -263,3 +263,16 @@ Proof.
   rewrite map_length, Nat.sub_diag. reflexivity.
 Qed.
 Print Assumptions C17_session_independent.
+
+(* ---- rejected edges: add_edges_from keeps exactly the edges before the first rejected one, whatever follows;
+   without a rejected edge the partial and the all-or-error readings coincide *)
+Theorem C17_add_edges_rejected_prefix es1 g g1 e c es2 :
+  dbn_add_edges g es1 = Ok g1 -> dbn_add_edge g1 e = Err c ->
+  dbn_add_edges_partial g (es1 ++ e :: es2) = (g1, false) /\ dbn_add_edges g (es1 ++ e :: es2) = Err c.
+Proof. exact (add_edges_partial_rejected es1 g g1 e c es2). Qed.
+Print Assumptions C17_add_edges_rejected_prefix.
+
+Theorem C17_add_edges_accepted es g g' :
+  dbn_add_edges g es = Ok g' -> dbn_add_edges_partial g es = (g', true).
+Proof. exact (add_edges_partial_ok es g g'). Qed.
+Print Assumptions C17_add_edges_accepted.
